@@ -42,6 +42,8 @@ def run(ctx):
                       "equality whatever their concrete types; containers element-wise; anything else unequal", floor=1)
     ctx.rule("R03.s", "class route: a class-level assignment through a subclass notifies the class watchers only after the subclass shows the new value -- the per-class copy of an inherited "
                       "Parameter is installed in the class namespace before its __set__ (which dispatches) runs (shared with R13.e)", floor=1)
+    ctx.rule("R03.i", "instance or class is decided by identity (shared with R12.v): no boolean-context use of the namespace's instance -- for an instance that is falsy (defines __len__ / "
+                      "__bool__) update() and trigger() would assign on the CLASS, so the instance's watchers are never called", floor=40)
     ctx.rule("R03.k", "every class and every instance has dispatch state of its own: _ClassPrivate.__init__ / _InstancePrivate.__init__ interpreted twice in one interpreter (module-level "
                       "objects shared, as at run time) store no container -- state dict, event queue, watcher queue, stores, tables -- that the other namespace holds too, at any depth", floor=1)
     ctx.rule("R03.r", "precedence is kept as given: Watcher.__new__ interpreted abstractly stores the precedence it is handed (an integer, a fraction, a negative internal one) unchanged and 0 "
@@ -363,6 +365,8 @@ def run(ctx):
     watcher_new_model(ctx, "R03.r")
     from checks.shared import fresh_private_state
     fresh_private_state(ctx, "R03.k")
+    from checks.shared import instance_tested_by_identity
+    instance_tested_by_identity(ctx, "R03.i")
 
     # the model-level rule comes last: if the interpreter cannot follow an edited flush,
     # the structural findings above are still reported
